@@ -79,6 +79,11 @@ Definition raw_new (bpp : Z) (alt : bool) (data : list Z) (s : size) : image_raw
   if negb (Z.of_nat (length data) =? expected_size) then inr expected_size
   else inl (IR data s bpp alt).
 
+(* image_raw.rs:174-179 new_const: `match Self::new(data, size) { Ok(image) => image, Err(..) => panic!("Invalid data size") }`
+   None = the panic *)
+Definition raw_new_const (bpp : Z) (alt : bool) (data : list Z) (s : size) : option image_raw :=
+  match raw_new bpp alt data s with inl img => Some img | inr _ => None end.
+
 (* image_raw.rs:185-193 *)
 Definition data_width (img : image_raw) : Z :=
   if ir_bpp img <? 8 then
